@@ -101,7 +101,7 @@ fn gen_example(rng: &mut Prng, hint_url: Option<&str>) -> Value {
         "method": method,
         "headers": headers,
         "ip_address": ip,
-        "response_status_code": match rng.below(6) { 0 | 1 => Value::Null, 2 => json!(200), 3 => json!(404), 4 => json!(301), _ => json!(0) },
+        "response_status_code": match rng.below(8) { 0 | 1 => Value::Null, 2 => json!(200), 3 | 4 | 5 => json!(404), 6 => json!(301), _ => json!(0) },
         "must_match": rng.chance(3, 4),
         "unit_ids_applied": match rng.below(5) {
             0 => Value::Null,
@@ -137,12 +137,23 @@ fn gen_simple_redirect(rng: &mut Prng, id: &str) -> Value {
         _ => t.to_string(),
     };
     let n_ex = rng.below(3);
+    // a third of the redirects are CONDITIONED on the backend response code (include and exclude lists): the chain analysis
+    // must then evaluate the request-time status (0 => not decided yet), the backend code of the example, and filter the
+    // headers with the BACKEND code — like the proxies do
+    let (codes, exclude): (Value, Value) = if rng.chance(1, 3) {
+        (
+            match rng.below(5) { 0 => json!([404]), 1 => json!([200]), 2 => json!([404, 500]), 3 => json!([302, 404]), _ => json!([200, 404]) },
+            match rng.below(4) { 0 => json!(true), 1 => json!(false), _ => Value::Null },
+        )
+    } else {
+        (Value::Null, Value::Null)
+    };
     json!({
         "id": id,
         "source": {
             "scheme": null, "host": null, "path": path, "query": null, "ips": null, "headers": null,
             "methods": match rng.below(5) { 0 => json!(["GET"]), 1 => json!(["POST"]), _ => Value::Null },
-            "exclude_methods": null, "response_status_codes": null, "exclude_response_status_codes": null, "sampling": null,
+            "exclude_methods": null, "response_status_codes": codes, "exclude_response_status_codes": exclude, "sampling": null,
         },
         "target": target,
         "status_code": *rng.pick(&[301u16, 302, 307, 308]),
@@ -347,6 +358,46 @@ fn gen_case(rng: &mut Prng) -> Value {
             })
             .collect();
     }
+    let mut cond_probes: Vec<Value> = Vec::new();
+    if rng.chance(1, 7) {
+        // a chain / cycle of redirects of which the first, a middle or every hop is CONDITIONED on the backend code (include and
+        // exclude lists, codes in and out of the list), with 301 / 302 / 307 / 308 mixes (method rewrite) and examples that pass the
+        // unit-id check, so that test-examples reaches the redirect analysis
+        let len = 2 + rng.below(4);
+        let cyclic = rng.chance(1, 2);
+        let which = rng.below(4); // 0 first hop, 1 a middle hop, 2 every hop, 3 last hop
+        let backend = *rng.pick(&[404u16, 404, 200, 500]);
+        let mut chain: Vec<Value> = Vec::new();
+        for i in 0..len {
+            let conditional = match which { 0 => i == 0, 1 => i == len / 2, 2 => true, _ => i + 1 == len };
+            let (codes, exclude): (Value, Value) = if conditional {
+                match rng.below(6) {
+                    0 | 1 => (json!([404]), Value::Null),          // include, backend 404 in the list
+                    2 => (json!([200, 500]), json!(true)),          // exclude list that does not contain 404
+                    3 => (json!([404]), json!(true)),               // exclude list that contains 404: no hop for a 404 backend
+                    4 => (json!([302, 404]), json!(false)),         // `false` is treated as an exclusion too (O5)
+                    _ => (json!([200]), Value::Null),               // include, matches the default backend code 200
+                }
+            } else {
+                (Value::Null, Value::Null)
+            };
+            let next = if i + 1 < len { format!("/q{}", i + 1) } else if cyclic { "/q0".to_string() } else { "/end".to_string() };
+            let ex = json!({"url": format!("/q{i}"), "method": *rng.pick(&[Value::Null, json!("GET"), json!("POST")]), "headers": null, "ip_address": null,
+                "response_status_code": *rng.pick(&[json!(backend), json!(backend), Value::Null, json!(200)]), "must_match": true, "unit_ids_applied": []});
+            cond_probes.push(ex.clone());
+            chain.push(json!({
+                "id": format!("r{}", base.len() + i),
+                "source": {"scheme": null, "host": null, "path": format!("/q{i}"), "query": null, "ips": null, "headers": null,
+                    "methods": match rng.below(6) { 0 => json!(["GET"]), 1 => json!(["POST"]), _ => Value::Null },
+                    "exclude_methods": null, "response_status_codes": codes, "exclude_response_status_codes": exclude, "sampling": null},
+                "target": if rng.chance(1, 6) { format!("http://example.org{next}") } else { next },
+                "status_code": *rng.pick(&[301u16, 302, 307, 308]),
+                "rank": rng.below(3), "body_filters": null, "header_filters": null, "log_override": null, "reset": null, "stop": null,
+                "examples": [ex], "redirect_unit_id": format!("uq{i}"), "configuration_log_unit_id": null, "configuration_reset_unit_id": null, "target_hash": null,
+            }));
+        }
+        base.extend(chain);
+    }
     let nb = base.len();
     let mut deleted: Vec<Value> = Vec::new();
     let mut updated: Vec<Value> = Vec::new();
@@ -517,6 +568,12 @@ fn gen_case(rng: &mut Prng) -> Value {
     // requests that a superseded / deleted version matched
     for p in old_probes.into_iter().take(2) {
         probes.push(p);
+    }
+    // the start and one inner url of the conditional chain, with the backend code the chain is conditioned on
+    if !cond_probes.is_empty() {
+        probes.push(cond_probes[0].clone());
+        let k = rng.below(cond_probes.len());
+        probes.push(cond_probes[k].clone());
     }
     let max_hops = match rng.below(8) { 0 => 0, 1 => 1, 2 => 2, 3 => 3, 4 => 5, 5 => 10, 6 => 255, _ => 4 };
     let domains: Value = match rng.below(4) {
@@ -927,6 +984,58 @@ fn table_for(router: &Router<Rule>, example: &Example, domains: &[String], max_h
     Value::Array(rows)
 }
 
+/// The redirect chain the PROXY-ORDER pipeline gives: `RedirectionLoop::compute` re-enacted by the harness over its own `step`
+/// (request-time status, else the example's backend code; headers filtered with the backend code; first Location; join_url;
+/// 301/302 => GET; repeat => Loop; project domains; hop limit).  -> (hops [[url, status, method]..], error, a conditional hop was followed)
+fn walk(router: &Router<Rule>, example: &Example, domains: &[String], max_hops: u8) -> (Vec<Value>, Value, bool) {
+    let mut u = example.url.clone();
+    let mut m = example.method.clone().unwrap_or_else(|| "GET".to_string());
+    let mut hops: Vec<(String, u16, String)> = vec![(u.clone(), 0, m.clone())];
+    let mut error = Value::Null;
+    let mut conditional = false;
+    for i in 1..=(max_hops as usize) {
+        let (kind, st, loc, ext) = step(router, example, domains, &u, &m);
+        if kind != "resp" || ![301u16, 302, 307, 308].contains(&st) {
+            break;
+        }
+        let l = match loc {
+            Some(l) => l,
+            None => break,
+        };
+        // was this redirect decided by the backend code (request-time status 0)?
+        {
+            let ex = example.with_url(u.clone()).with_method(Some(m.clone()));
+            if let Ok(request) = Request::from_example(&router.config, &ex) {
+                let mut a = Action::from_routes_rule(router.match_request(&request), &request, None);
+                if a.get_status_code(0, None) == 0 {
+                    conditional = true;
+                }
+            }
+        }
+        u = l;
+        if i > 1 {
+            error = json!("AtLeastOneHop");
+        }
+        if st == 301 || st == 302 {
+            m = "GET".to_string();
+        }
+        let repeat = hops.iter().any(|(hu, _, hm)| *hu == u && *hm == m);
+        hops.push((u.clone(), st, m.clone()));
+        if repeat {
+            error = json!("Loop");
+            break;
+        }
+        if ext {
+            break;
+        }
+        if i >= max_hops as usize {
+            error = json!("TooManyHops");
+            break;
+        }
+    }
+    (hops.into_iter().map(|(a, b, c)| json!([a, b, c])).collect(), error, conditional)
+}
+
 fn compute_tables(case: &Value) -> Option<Value> {
     let c = parse_case(case).ok()?;
     let router = router_of(&c.config, &c.applied());
@@ -1244,6 +1353,8 @@ fn run(case: &Value) -> Obs {
     // verdicts recomputed directly
     {
         let (mut n_ex, mut n_fail, mut n_err) = (0u64, 0u64, 0u64);
+        let mut expected_loop_failures = 0u64;
+        let mut expected_loop_chains: Vec<Value> = Vec::new();
         let mut expected_failures: Map<String, Value> = Map::new();
         for rule in &applied {
             let examples = match &rule.examples {
@@ -1264,6 +1375,17 @@ fn run(case: &Value) -> Obs {
                 let not_applied = d.unit_trace.diff(ex.unit_ids_applied.clone().unwrap());
                 let contains = d.unit_trace.rule_ids_contains(rule.id.as_str());
                 let failed = ex.must_match && (!not_applied.is_empty() || !contains) || !ex.must_match && contains;
+                if !failed {
+                    // the redirect analysis of a passing example: TooManyHops / Loop make it a failure
+                    let (whops, werr, wcond) = walk(&final_router, ex, &c.domains, c.max_hops);
+                    if werr == json!("TooManyHops") || werr == json!("Loop") {
+                        expected_loop_failures += 1;
+                        expected_loop_chains.push(json!([rule.id, whops, werr]));
+                        if wcond {
+                            tags.push("te-loop-failure:conditional-hop".into());
+                        }
+                    }
+                }
                 if failed {
                     n_fail += 1;
                     let entry = expected_failures.entry(rule.id.clone()).or_insert_with(|| json!([]));
@@ -1287,6 +1409,25 @@ fn run(case: &Value) -> Obs {
                             "rule_ids_applied": fe["rule_ids_applied"], "unit_ids_applied": fe["unit_ids_applied"], "unit_ids_not_applied_anymore": fe["unit_ids_not_applied_anymore"]}));
                     } else {
                         loop_only += 1;
+                    }
+                }
+            }
+        }
+        // the failure counter is exact whatever the size of the sample: unit-id failures + passing examples whose redirect chain,
+        // computed by the harness with the proxy-order pipeline, ends in TooManyHops / Loop
+        if te_s["failure_count"].as_u64() != Some(n_fail + expected_loop_failures) {
+            fails.push((format!("test-examples failure_count {} but the proxy-order pipeline gives {} unit-id failures + {} redirect-chain failures", te_s["failure_count"], n_fail, expected_loop_failures), "loop-vs-pipeline"));
+        }
+        // the chains attached to the reported failures are the pipeline's chains
+        if let Some(m) = te_s["first_ten_failures"].as_object() {
+            for (id, fr) in m {
+                for fe in fr["failed_examples"].as_array().cloned().unwrap_or_default() {
+                    let rl = &fe["redirection_loop"];
+                    if !rl.is_null() {
+                        let got = json!([id, rl["hops"].as_array().cloned().unwrap_or_default().iter().map(|h| json!([h["url"], h["status_code"], h["method"]])).collect::<Vec<_>>(), rl["error"]]);
+                        if !expected_loop_chains.contains(&got) {
+                            fails.push((format!("test-examples reports the redirect chain {got}, which the proxy-order pipeline does not give"), "loop-vs-pipeline"));
+                        }
                     }
                 }
             }
@@ -1411,6 +1552,15 @@ fn run(case: &Value) -> Obs {
                 "error": rl["error"],
             })
         };
+        if l.get("hops").is_some() {
+            let (hops, error, conditional) = walk(&final_router, probe, &c.domains, c.max_hops);
+            if l["hops"] != Value::Array(hops.clone()) || l["error"] != error {
+                fails.push((format!("explain probe {pi}: the redirect chain {} / {} differs from the proxy-order pipeline {} / {}", l["hops"], l["error"], Value::Array(hops), error), "loop-vs-pipeline"));
+            }
+            if conditional {
+                tags.push(format!("loop:conditional-hop/{}", l["error"].as_str().unwrap_or("none")));
+            }
+        }
         if let Some(e) = l["error"].as_str() {
             tags.push(format!("loop:{e}"));
         } else if l.get("hops").is_some() {
